@@ -5,6 +5,7 @@ import (
 	"context"
 	"encoding/hex"
 	"fmt"
+	"os"
 	"sort"
 	"strings"
 	"sync"
@@ -652,10 +653,15 @@ func histHash(hist []int) int {
 type replay struct {
 	Bound int             `json:"bound"`
 	Hist  []int           `json:"hist"`
-	Conc  []explore.Point `json:"conc,omitempty"` // concurrent part: the scheduler choices
+	Conc  []explore.Point `json:"conc,omitempty"` // concurrent part: the scheduler (and crash) choices
+	CC    *concCfg        `json:"conc_cfg,omitempty"`
 }
 
 func TestCheck(t *testing.T) {
+	if os.Getenv("C10_CONC_OUT") != "" { // child process of the concurrent part: one shard, result goes to the parent
+		concShardMain(t)
+		return
+	}
 	r := vf.Start("C10", "model_checking")
 	depth := vf.Pick(r, 8, 12)
 	bounds := vf.Pick(r, []int{2, 3}, []int{1, 2, 3, 4})
@@ -663,7 +669,9 @@ func TestCheck(t *testing.T) {
 	r.Assume = []string{
 		"datastore contract: a single Put/Delete is atomic and durable and Query iterates in key order (badger), modelled by the logging KV double",
 		"an empty answer of GetNextBatch means the queue is empty (drain probes stop at the first empty answer)",
-		"concurrent part: 2 submitters (A,B / C) + 1 consumer (2 x next) under the cooperative scheduler (queue mutex via lock shim, datastore operations as gates), delay bound 3/5, queue sizes 1-3; each interleaving's call/return history + reload + drain is checked with porcupine against a bounded FIFO",
+		"concurrent part: atomicity grain of the schedules = [operation start .. Lock() entry], [Lock() .. datastore operation], [datastore operation .. next datastore operation or return]; code between two such points runs without interleaving (the queue has no other synchronisation than its mutex), memory effects are sequentially consistent",
+		"concurrent part: a crash cut falls between two scheduling steps (i.e. before/after any datastore write, with any set of calls in flight); a call in flight at the crash never returned, so it may count as not applied or applied, a submission also as applied in memory only (seen by concurrent calls, gone with the crash): the statement speaks about acknowledged submissions and completed hand-outs only",
+		"concurrent part: the order in which the running process would hand out the queued batches is the acceptance order a restart has to preserve (for submissions that overlapped in time the property fixes no order, but it must be the same one with and without a restart)",
 		"an empty submission is neither an acceptance nor a rejection (model no-op, any return value)",
 	}
 	if r.ReplayPath() != "" {
@@ -671,10 +679,13 @@ func TestCheck(t *testing.T) {
 		if _, err := r.LoadReplay(&rp); err != nil {
 			r.EngineError(err.Error())
 		} else {
-			if rp.Conc != nil {
+			if rp.CC != nil {
+				world.EnablePreLockGates()
 				explore.ReplayOne(rp.Conc, func(c *explore.Ctx) {
-					if o := concBody(t, c, rp.Bound); o.fail != nil {
-						r.Report(vf.Violation{Clause: o.fail.Clause, Tags: []string{"concurrent"}, Msg: o.fail.Msg, History: rp})
+					o := concBody(t, c, *rp.CC)
+					fmt.Printf("replay concurrent %+v: %s\n", *rp.CC, o.trace)
+					if o.fail != nil {
+						r.Report(vf.Violation{Clause: o.fail.Clause, Tags: o.tags, Msg: o.fail.Msg, History: rp})
 					}
 				})
 				r.Finish(vf.Coverage{Evaluations: 1, DistinctNontrivial: 1})
@@ -690,6 +701,7 @@ func TestCheck(t *testing.T) {
 		r.Finish(vf.Coverage{Evaluations: 1, DistinctNontrivial: 1})
 		return
 	}
+	world.EnablePreLockGates() // before any scheduled thread exists (only the concurrent part has threads)
 	var total explore.BFSStats
 	var caps []string
 	perBound := map[string]any{}
@@ -741,34 +753,35 @@ func TestCheck(t *testing.T) {
 		}
 		perBound[fmt.Sprintf("queue_size_%d", bound)] = map[string]any{"states": st.States, "transitions": st.Transitions, "depth_done": st.DepthDone, "fixpoint_reached": fix, "states_per_level": st.PerLevel}
 	}
-	// concurrent part: every interleaving (delay-bounded) of two submitters and a consumer, porcupine
-	var conc explore.Stats
-	for _, bound := range []int{1, 2, 3} {
-		st := explore.Explore(explore.Config{Budgets: map[string]int{"sched": vf.Pick(r, 3, 5)}, Deadline: vf.Pick(r, 30*time.Second, 8*time.Minute)}, func(c *explore.Ctx) {
-			o := concBody(t, c, bound)
-			if o.fail != nil {
-				r.Report(vf.Violation{Clause: o.fail.Clause, Tags: []string{"concurrent"}, Msg: fmt.Sprintf("queue size %d: %s", bound, o.fail.Msg), Cost: c.Cost(), History: replay{Bound: bound, Conc: c.Choices()}})
-				return
-			}
-			r.Outcome("conc:" + o.trace)
-			if c.Cost() == 2 {
-				r.Sample(map[string]any{"concurrent_history": o.trace, "queue_size": bound})
-			}
-		})
-		conc.Executions += st.Executions
-		conc.Points += st.Points
-		for _, m := range st.Nondet {
-			r.EngineError("nondeterminism (concurrent part): " + m)
-		}
-		if st.Capped != "" {
-			caps = append(caps, fmt.Sprintf("concurrent part, queue size %d: %s", bound, st.Capped))
+	// concurrent part (concurrent_test.go): thread programs x queue size x preloaded batches, every interleaving of
+	// the scheduling steps (or delay-bounded), each ending in a fork live-vs-restart or in a crash cut. synctest
+	// bubbles do not scale over goroutines, so the subtrees below each root execution are dealt out to processes.
+	cr := runConcSharded(t, r.Thorough(), 16)
+	for _, e := range cr.Engine {
+		r.EngineError("concurrent part: " + e)
+	}
+	for _, v := range cr.Viol {
+		r.Report(v)
+	}
+	for k, n := range cr.Outcomes {
+		for i := 0; i < n; i++ {
+			r.Outcome(k)
 		}
 	}
+	caps = append(caps, cr.Caps...)
+	concPer := map[string]any{}
+	for _, k := range sortedKeys(cr.PerProg) {
+		concPer[k] = cr.PerProg[k]
+	}
+	concBounds := concBoundsText(r.Thorough())
 	r.Finish(vf.Coverage{
-		Evaluations: total.Transitions + conc.Executions, DistinctNontrivial: total.States, States: total.States, Transitions: total.Transitions,
-		Rule:       "every operation history up to the depth bound over the alphabet (submit A / B / A again with identical bytes / C, submit empty, submit under a foreign chain id, next, reload = new sequencer on the same datastore image, crash before the k-th durable write of a submit or a next followed by reload), for each queue size, executed from scratch on the real single.Sequencer over the logging datastore double; every history ends with a full drain and a reload probe; a history whose oracle fails is reported and not extended; histories are merged when volatile queue state (all BatchQueue fields, by reflection hook), durable image and reference model agree (the sequencer has no other mutable state); distinct = distinct merged states",
+		Evaluations: total.Transitions + cr.Executions, DistinctNontrivial: total.States, States: total.States, Transitions: total.Transitions,
+		Rule: "SEQUENTIAL: every operation history up to the depth bound over the alphabet (submit A / B / A again with identical bytes / C, submit empty, submit under a foreign chain id, next, reload = new sequencer on the same datastore image, crash before the k-th durable write of a submit or a next followed by reload), for each queue size, executed from scratch on the real single.Sequencer over the logging datastore double; every history ends with a full drain and a reload probe; a history whose oracle fails is reported and not extended; histories are merged when volatile queue state (all BatchQueue fields, by reflection hook), durable image and reference model agree (the sequencer has no other mutable state); distinct = distinct merged states. " +
+			"CONCURRENT: for each thread program (submitters and a consumer calling the real Sequencer), queue size 1-3 and 0/1 batch carried over a restart beforehand: every interleaving (for the larger programs: every interleaving within the delay bound) of the threads' scheduling steps, where the start of an operation, the ENTRY of every Lock() of the queue mutex (also when it is free, so whatever an operation evaluates before taking the lock is a step of its own), a wait for the held mutex and every datastore operation are scheduling points. An execution that runs to quiescence is forked: the live instance is drained AND a sequencer restarted on a copy of the datastore is drained; oracle = concurrent history + live drain linearizable w.r.t. a bounded exactly-once FIFO (porcupine), restarted instance hands out the same batches in the same order as the live one (WAL == in-memory queue), nothing comes back after a further restart. With crash cuts, additionally at every scheduling point the process is killed with calls in flight and a sequencer restarted on the datastore as it is: for some fate of each in-flight call (not applied / applied / a submission also: applied in memory only), completed calls + crash + restart drain must be linearizable",
 		Exhaustive: complete && len(caps) == 0, Caps: caps,
-		Bounds: map[string]any{"depth": depth, "state_space_fixpoint_reached": fixpoint, "queue_sizes": bounds, "alphabet": len(acts), "per_queue_size": perBound},
-		Extra:  map[string]any{"concurrent_interleavings_checked_with_porcupine": conc.Executions, "submissions_accepted": accepted, "submissions_rejected": rejected, "batches_delivered_in_histories": delivered, "crashes_injected": crashes},
+		Bounds: map[string]any{"depth": depth, "state_space_fixpoint_reached": fixpoint, "queue_sizes": bounds, "alphabet": len(acts), "per_queue_size": perBound,
+			"concurrent": map[string]any{"queue_sizes": []int{1, 2, 3}, "preloaded_batches_carried_over_a_restart": []int{0, 1}, "crash_cuts_per_execution": "at most 1", "thread_programs": concBounds}},
+		Extra: map[string]any{"concurrent_executions": cr.Executions, "concurrent_decision_points": cr.Points, "concurrent_processes": cr.Shards, "concurrent_per_thread_program": concPer, "concurrent_samples": cr.Samples,
+			"submissions_accepted": accepted, "submissions_rejected": rejected, "batches_delivered_in_histories": delivered, "crashes_injected": crashes},
 	})
 }
